@@ -79,6 +79,41 @@ def engine(**opts):
     return _engines[key]
 
 
+# the public ways of configuring the two limits: an engine made with the options (YaqlEngine.copy /
+# YaqlFactory.create), and PER-EXPRESSION options `engine(text, options=...)` laid over a plain engine or
+# over an engine whose own limits are laxer
+OPT_ROUTES = ["copy", "per-expression", "per-expression-over-lax"]
+LAX = {"yaql.limitIterators": 1000, "yaql.memoryQuota": 10 ** 8}
+_bases = {}
+_engine_of = {}
+
+
+def _base(how):
+    if how not in _bases:
+        _bases[how] = yaql.YaqlFactory().create(options=dict(LAX) if how == "per-expression-over-lax" else {})
+    return _bases[how]
+
+
+def statement(expr, how="copy", **opts):
+    if how == "copy" or not opts:
+        return engine(**opts)(expr)
+    return _base(how)(expr, options={"yaql." + k: v for k, v in opts.items()})
+
+
+def engine_of(how="copy", **opts):
+    """The engine object an evaluation configured that way really runs with."""
+    if how == "copy" or not opts:
+        return engine(**opts)
+    key = (how, tuple(sorted(opts.items())))
+    if key not in _engine_of:
+        _engine_of[key] = getattr(statement("$", how, **opts), "engine", None) or engine(**opts)
+    return _engine_of[key]
+
+
+def how_of(i, stride=1):
+    return OPT_ROUTES[(i // stride) % len(OPT_ROUTES)]
+
+
 def fresh_ctx():
     if not _base_ctx:
         _base_ctx.append(yaql.create_context())
@@ -88,7 +123,7 @@ def fresh_ctx():
 def res_term(outcome, payload):
     if outcome == "Ok":
         return "(Ok %s)" % payload
-    return {"TooLarge": "TooLarge", "Diverges": "Diverges"}[outcome]
+    return {"TooLarge": "TooLarge", "Diverges": "Diverges", "Unhashable": "Unhashable"}[outcome]
 
 
 # --------------------------------------------------------------------------
@@ -97,9 +132,9 @@ def res_term(outcome, payload):
 LIMIT_ROUTES = ["int", "engine", "convert", "#iter"]
 
 
-def run_limit(N, items, endless, route):
+def run_limit(N, items, endless, route, how="copy"):
     src = Src(items, endless, cap=CAP)
-    eng = engine(limitIterators=N)
+    eng = engine_of(how, limitIterators=N)
     ctx = fresh_ctx()
     out, got = "Ok", []
     try:
@@ -155,16 +190,18 @@ def gen_limit_cases(run, n):
 def c_limit(run, n, terms, meta):
     for i, (N, items, endless) in enumerate(gen_limit_cases(run, n)):
         route = LIMIT_ROUTES[i % 4]
-        out, got, pulls = run_limit(N, items, endless, route)
-        run.case(("limit", N, tuple(items), endless, route), nontrivial=endless or len(items) >= N)
+        how = how_of(i, 4)
+        out, got, pulls = run_limit(N, items, endless, route, how)
+        run.case(("limit", N, tuple(items), endless, route, how), nontrivial=endless or len(items) >= N)
         run.count("limit:%s" % out)
         run.count("limit-route:%s" % route)
+        run.count("options-route:%s" % how)
         if i % 41 == 0:
             run.sample({"kind": "limit", "N": N, "items": items, "endless": endless, "route": route,
                         "outcome": out, "yielded": got, "pulls": pulls})
         terms.append("CLimit %s %s %s %s %s" % (gal.z(N), gal.zlist(items), gal.boolean(endless),
                                                res_term(out, gal.zlist(got)), gal.nat(min(pulls, 4000))))
-        meta.append(("limit", {"N": N, "items": items, "endless": endless, "route": route},
+        meta.append(("limit", {"N": N, "items": items, "endless": endless, "route": route, "options_route": how},
                      {"outcome": out, "yielded": got, "pulls": pulls},
                      limit_predicate(N, items, endless, out, got, pulls)))
 
@@ -201,7 +238,27 @@ def c_sized(run, n, terms, meta):
 # --------------------------------------------------------------------------
 # C2: the finaliser
 # --------------------------------------------------------------------------
-def gen_shape(rng, N, depth, wide_level, level=0):
+def gen_key(rng, N, wide, host):
+    """A dictionary key that is itself a collection or a lazy sequence (yaql values are immutable, hence
+    hashable): tuple (possibly nested), frozenset, FrozenDict, one-shot iterator."""
+    if wide and N >= 0:
+        w = rng.choice([max(N - 1, 0), N, N + 1, N + 1])
+    else:
+        w = rng.choice([0, 1, 2, 2, 3])
+    kind = rng.choice(["tuple", "tuple", "tuple", "iter", "dict"] if host else ["tuple", "tuple", "tuple", "set", "dict", "iter"])
+    if kind == "tuple":
+        items = [("int", rng.randrange(0, 50)) for _ in range(w)]
+        if items and rng.random() < 0.3:
+            items[rng.randrange(len(items))] = ("tuple", [("int", rng.randrange(0, 9)) for _ in range(rng.choice([0, 1, 2, max(N, 0) + 1]))])
+        return ("tuple", items)
+    if kind == "set":
+        return ("set", rng.sample(range(0, 31), min(w, 30)), True)
+    if kind == "dict":
+        return ("dict", [(("int", k), ("int", k)) for k in rng.sample(range(0, 40), min(w, 39))], True)
+    return ("iter", [("int", rng.randrange(0, 50)) for _ in range(w)], N >= 0 and rng.random() < 0.3)
+
+
+def gen_shape(rng, N, depth, wide_level, level=0, host=False, ckeys=True):
     """spec: ('null',) ('int', z) ('str', s) ('tuple', [..]) ('list', [..]) ('dict', [(k, v)..], frozen)
              ('set', [ints], frozen) ('iter', [..], endless)"""
     if depth == 0 or rng.random() < 0.25:
@@ -223,9 +280,20 @@ def gen_shape(rng, N, depth, wide_level, level=0):
     if kind == "dict":
         keys = rng.sample(range(0, 40), min(w, 39))
         keys = [k if rng.random() < 0.7 else "k%d" % k for k in keys]
-        return ("dict", [(("int", k) if isinstance(k, int) else ("str", k),
-                          gen_shape(rng, N, depth - 1, wide_level, level + 1)) for k in keys], rng.random() < 0.5)
-    items = [gen_shape(rng, N, depth - 1, wide_level, level + 1) for _ in range(w)]
+        kspecs = [("int", k) if isinstance(k, int) else ("str", k) for k in keys]
+        if ckeys and rng.random() < 0.45:
+            seen = set()
+            for j in range(len(kspecs)):
+                if rng.random() < 0.5:
+                    ks = gen_key(rng, N, rng.random() < 0.4 or level + 1 == wide_level, host)
+                    sig = repr(sorted(ks[1])) if ks[0] == "set" else repr(ks)
+                    if ks[0] != "iter" and sig in seen:
+                        continue
+                    seen.add(sig)
+                    kspecs[j] = ks
+        return ("dict", [(ks, gen_shape(rng, N, depth - 1, wide_level, level + 1, host, ckeys)) for ks in kspecs],
+                rng.random() < 0.5)
+    items = [gen_shape(rng, N, depth - 1, wide_level, level + 1, host, ckeys) for _ in range(w)]
     if kind == "iter":
         return ("iter", items, N >= 0 and rng.random() < 0.2)
     return (kind, items)
@@ -311,7 +379,22 @@ def shape_nodes(spec):
             yield from shape_nodes(x)
     elif t == "dict":
         for k, v in spec[1]:
+            yield from shape_nodes(k)          # keys are nodes of the value like any other
             yield from shape_nodes(v)
+
+
+def conv_hashable(spec, t2l):
+    """Is the FINALISED form of this key still hashable?  (tuple -> list, frozenset -> set / list,
+    FrozenDict -> dict, iterator -> list are not: known finding F8 of C10)"""
+    if spec[0] in ("null", "int", "str"):
+        return True
+    if spec[0] == "tuple":
+        return (not t2l) and all(conv_hashable(x, t2l) for x in spec[1])
+    return False
+
+
+def spec_unhashable_key(spec, t2l):
+    return any(nd[0] == "dict" and any(not conv_hashable(k, t2l) for k, _ in nd[1]) for nd in shape_nodes(spec))
 
 
 def spec_too_wide(spec, N):
@@ -334,10 +417,11 @@ def value_widths_ok(v, N):
 FINAL_ROUTES = ["convert_output_data", "#finalize", "engine"]
 
 
-def run_final(N, t2l, s2l, spec, route):
+def run_final(N, t2l, s2l, spec, route, how="copy"):
     srcs = []
     obj = build(spec, srcs, host=(route == "engine"))
-    eng = engine(limitIterators=N, convertTuplesToLists=t2l, convertSetsToLists=s2l)
+    opts = dict(limitIterators=N, convertTuplesToLists=t2l, convertSetsToLists=s2l)
+    eng = engine_of(how, **opts)
     out, val = "Ok", None
     try:
         if route == "convert_output_data":
@@ -345,25 +429,28 @@ def run_final(N, t2l, s2l, spec, route):
         elif route == "#finalize":
             val = fresh_ctx()("#finalize", eng)(obj)
         else:
-            val = eng("$").evaluate(data=obj, context=fresh_ctx())
+            val = statement("$", how, **opts).evaluate(data=obj, context=fresh_ctx())
     except exceptions.CollectionTooLargeException:
         out = "TooLarge"
     except PullCap:
         out = "Diverges"
+    except TypeError:
+        out = "Unhashable"
     return out, val, sum(s.pulls for s in srcs), max([s.pulls for s in srcs] or [0])
 
 
-def final_predicate(N, spec, out, val, maxpulls):
+def final_predicate(N, spec, out, val, maxpulls, t2l=True):
     if N < 0:
         return None
     if maxpulls > N + 1:
         return "a source inside the result was pulled %d times, allowed %d" % (maxpulls, N + 1)
     wide = spec_too_wide(spec, N)
+    unhashable = spec_unhashable_key(spec, t2l)
     if out == "Ok" and not value_widths_ok(val, N):
-        return "finalised result contains a collection with more than %d elements or a non-plain value" % N
-    if wide and out != "TooLarge":
-        return "a collection with more than %d elements inside the value did not raise (%s)" % (N, out)
-    if not wide and out != "Ok":
+        return "finalised result contains a collection with more than %d elements or a non-plain value (dictionary keys included)" % N
+    if wide and not (out == "TooLarge" or (unhashable and out == "Unhashable")):
+        return "a collection with more than %d elements inside the value (dictionary keys included) did not raise (%s)" % (N, out)
+    if not wide and out != ("Unhashable" if unhashable else "Ok"):
         return "no collection exceeds %d elements but finalisation gave %s" % (N, out)
     return None
 
@@ -374,15 +461,17 @@ def c_final(run, n, terms, meta, corpus):
     while len(shapes) < n:
         N = run.rng.randrange(-1, 13) if i % 3 else run.rng.choice([0, 1, 2, 3])
         depth = run.rng.choice([1, 2, 3, 3])
-        spec = gen_shape(run.rng, N, depth, run.rng.randrange(0, depth))
+        route = FINAL_ROUTES[i % 3]
+        spec = gen_shape(run.rng, N, depth, run.rng.randrange(0, depth), host=(route == "engine"))
         if spec[0] in ("null", "int", "str") and run.rng.random() < 0.8:
             continue
-        shapes.append((N, run.rng.random() < 0.6, run.rng.random() < 0.5, spec, FINAL_ROUTES[i % 3]))
+        shapes.append((N, run.rng.random() < 0.5, run.rng.random() < 0.5, spec, route))
         i += 1
     for i, (N, t2l, s2l, spec, route) in enumerate(shapes):
         if N < 0 and any(nd[0] == "iter" and nd[2] for nd in shape_nodes(spec)):
             continue
-        out, val, pulls, maxpulls = run_final(N, t2l, s2l, spec, route)
+        how = how_of(i, 3)
+        out, val, pulls, maxpulls = run_final(N, t2l, s2l, spec, route, how)
         try:
             vt = value_term(val) if out == "Ok" else None
         except Unprintable:
@@ -393,14 +482,17 @@ def c_final(run, n, terms, meta, corpus):
                  nontrivial=any(nd[0] in ("tuple", "list", "dict", "set", "iter") and len(nd[1]) >= N for nd in nodes))
         run.count("final:%s" % out)
         run.count("final-route:%s" % route)
+        run.count("options-route:%s" % how)
+        if any(nd[0] == "dict" and any(k[0] not in ("int", "str") for k, _ in nd[1]) for nd in nodes):
+            run.count("final:with-collection-or-iterator-keys")
         if i % 67 == 0:
             run.sample({"kind": "final", "N": N, "spec": spec, "route": route, "outcome": out, "pulls": pulls})
         terms.append("CFinal %s {| tuples_to_lists := %s; sets_to_lists := %s |} %s %s %s" % (
             gal.z(N), gal.boolean(t2l), gal.boolean(s2l), spec_term(spec, lists_as_tuples=(route == "engine")),
             res_term(out, vt), gal.nat(min(pulls, 4000))))
-        meta.append(("final", {"N": N, "t2l": t2l, "s2l": s2l, "spec": spec, "route": route},
+        meta.append(("final", {"N": N, "t2l": t2l, "s2l": s2l, "spec": spec, "route": route, "options_route": how},
                      {"outcome": out, "value": repr(val)[:300], "pulls": pulls},
-                     final_predicate(N, spec, out, val, maxpulls)))
+                     final_predicate(N, spec, out, val, maxpulls, t2l)))
 
 
 def totuple(x):
@@ -480,15 +572,14 @@ def make_operand(kind, n, grown):
     return chr(KIND_CP[kind]) * (n - 1) + ("a" if grown and n > 1 else chr(KIND_CP[kind]))
 
 
-def run_mul(Q, left, c, swap):
+def run_mul(Q, left, c, swap, how="copy"):
     ctx = fresh_ctx()
     cnt = CountInt(c)
     ctx["a"], ctx["b"] = left, cnt
     del CountInt.log[:]
-    eng = engine(memoryQuota=Q, convertOutputData=False)     # the evaluation of `*` alone, not the finaliser
     raised, other = False, None
-    try:
-        eng("$b * $a" if swap else "$a * $b").evaluate(context=ctx)
+    try:                                                     # the evaluation of `*` alone, not the finaliser
+        statement("$b * $a" if swap else "$a * $b", how, memoryQuota=Q, convertOutputData=False).evaluate(context=ctx)
     except exceptions.MemoryQuotaExceededException:
         raised = True
     except Exception as e:         # any other class is outside the model: reported
@@ -537,14 +628,16 @@ def c_mul(run, n, terms, meta, corpus):
                 Q = run.rng.choice([0, -1, -50])
             else:
                 Q = run.rng.choice([100, 1000, 10 ** 6])
-        raised, computed, size, csize, other = run_mul(Q, left, c, swap)
-        run.case(("mul", Q, kind, nn, sz, c), nontrivial=Q > 0 and min(sz, product) - 10 <= Q <= max(est, product, sz) + 10)
+        how = how_of(i)
+        raised, computed, size, csize, other = run_mul(Q, left, c, swap, how)
+        run.count("options-route:%s" % how)
+        run.case(("mul", Q, kind, nn, sz, c, how), nontrivial=Q > 0 and min(sz, product) - 10 <= Q <= max(est, product, sz) + 10)
         run.count("mul:%s%s" % ("raise" if raised else "ok", "+computed" if computed else ""))
         run.count("mul-kind:%s" % kind)
         if i % 83 == 0:
             run.sample({"kind": "mul", "Q": Q, "operand": kind, "n": nn, "own_size": sz, "count": c,
                         "raised": raised, "product_computed": computed, "product_size": size})
-        data = {"Q": Q, "k": kind, "n": nn, "own_size": sz, "c": c, "swap": swap, "grown": grown}
+        data = {"Q": Q, "k": kind, "n": nn, "own_size": sz, "c": c, "swap": swap, "grown": grown, "options_route": how}
         obs = {"raised": raised, "product_computed": computed, "product_size": size}
         if other:
             meta.append(("mul", data, dict(obs, exception=other), "`x * c` raised %s" % other))
@@ -590,13 +683,15 @@ def c_call(run, n, terms, meta):
         cands = sizes + [rs, sum(sizes)]
         Q = run.rng.choice(cands) + run.rng.choice([-1, 0, 0, 1]) if run.rng.random() < 0.85 else run.rng.choice([0, -1, 10 ** 6])
         raised, other = False, None
+        how = how_of(i)
+        run.count("options-route:%s" % how)
         try:
-            engine(memoryQuota=Q, convertOutputData=False)(expr).evaluate(context=ctx)
+            statement(expr, how, memoryQuota=Q, convertOutputData=False).evaluate(context=ctx)
         except exceptions.MemoryQuotaExceededException:
             raised = True
         except Exception as e:
             other = type(e).__name__
-        run.case(("call", form, Q, tuple(sizes), rs), nontrivial=Q > 0 and min(cands) - 2 <= Q <= max(cands) + 2)
+        run.case(("call", form, Q, tuple(sizes), rs, how), nontrivial=Q > 0 and min(cands) - 2 <= Q <= max(cands) + 2)
         run.count("call:%s:%s" % (form, "raise" if raised else "ok"))
         pred = None
         if other:
@@ -606,7 +701,7 @@ def c_call(run, n, terms, meta):
         elif Q > 0 and max(sizes) > Q and not raised:
             pred = "%s was handed an argument of %d bytes under quota %d" % (expr, max(sizes), Q)
         terms.append("CCall %s %s %s %s %s" % (gal.z(Q), gal.zlist(sizes), gal.boolean(joint), gal.z(rs), gal.boolean(raised)))
-        meta.append(("call", {"expr": expr, "Q": Q, "arg_sizes": sizes, "result_size": rs, "vars": variables},
+        meta.append(("call", {"expr": expr, "Q": Q, "arg_sizes": sizes, "result_size": rs, "vars": variables, "options_route": how},
                      {"raised": raised, "exception": other}, pred))
 
 
@@ -1045,18 +1140,20 @@ def o_direct(run, deep):
             L = run.rng.choice([0, N - 1, N, N + 1, N + 2, run.rng.randrange(0, 60)])
             L = max(L, 0)
             items, endless = list(range(L)), run.rng.random() < 0.3
-            out, got, pulls = run_limit(N, items, endless, LIMIT_ROUTES[i % 4])
+            how = how_of(i, 8)
+            out, got, pulls = run_limit(N, items, endless, LIMIT_ROUTES[i % 4], how)
             pred = limit_predicate(N, items, endless, out, got, pulls)
-            inp = {"N": N, "items": L, "endless": endless, "route": LIMIT_ROUTES[i % 4]}
+            inp = {"N": N, "items": L, "endless": endless, "route": LIMIT_ROUTES[i % 4], "options_route": how}
             kind = "limit"
         else:
             depth = run.rng.choice([2, 3, 4])
-            spec = gen_shape(run.rng, N if N <= 14 else 14, depth, run.rng.randrange(0, depth))
-            N = min(N, 14)
             route = FINAL_ROUTES[i % 3]
-            out, val, pulls, maxpulls = run_final(N, True, run.rng.random() < 0.5, spec, route)
-            pred = final_predicate(N, spec, out, val, maxpulls)
-            inp = {"N": N, "t2l": True, "s2l": False, "spec": spec, "route": route}
+            N = min(N, 14)
+            spec = gen_shape(run.rng, N, depth, run.rng.randrange(0, depth), host=(route == "engine"))
+            t2l, s2l, how = run.rng.random() < 0.5, run.rng.random() < 0.5, how_of(i, 6)
+            out, val, pulls, maxpulls = run_final(N, t2l, s2l, spec, route, how)
+            pred = final_predicate(N, spec, out, val, maxpulls, t2l)
+            inp = {"N": N, "t2l": t2l, "s2l": s2l, "spec": spec, "route": route, "options_route": how}
             kind = "final"
         run.cov["evaluations"] += 1
         run.count("direct:%s:%s" % (kind, out))
@@ -1094,7 +1191,7 @@ def replay(run, data):
     if kind == "limit":
         i = d["input"]
         out, got, pulls = run_limit(i["N"], i["items"] if isinstance(i["items"], list) else list(range(i["items"])),
-                                    i["endless"], i["route"])
+                                    i["endless"], i["route"], i.get("options_route", "copy"))
         return limit_predicate(i["N"], i["items"] if isinstance(i["items"], list) else list(range(i["items"])),
                                i["endless"], out, got, pulls) is None
     if kind == "sized":
@@ -1109,8 +1206,8 @@ def replay(run, data):
     if kind == "final":
         i = d["input"]
         spec = totuple(i["spec"])
-        out, val, pulls, maxpulls = run_final(i["N"], i["t2l"], i["s2l"], spec, i["route"])
-        return final_predicate(i["N"], spec, out, val, maxpulls) is None
+        out, val, pulls, maxpulls = run_final(i["N"], i["t2l"], i["s2l"], spec, i["route"], i.get("options_route", "copy"))
+        return final_predicate(i["N"], spec, out, val, maxpulls, i["t2l"]) is None
     if kind == "quota":
         i = d["input"]
         args = [(c, _Sized(s)) for c, s in i["args"]]
@@ -1127,7 +1224,7 @@ def replay(run, data):
     if kind == "mul":
         i = d["input"]
         left = make_operand(i["k"], i["n"], i.get("grown", False))
-        raised, computed, size, csize, other = run_mul(i["Q"], left, i["c"], i.get("swap", False))
+        raised, computed, size, csize, other = run_mul(i["Q"], left, i["c"], i.get("swap", False), i.get("options_route", "copy"))
         return other is None and mul_predicate(i["Q"], left, i["c"], raised, computed, size) is None
     if kind == "call":
         i = d["input"]
@@ -1140,7 +1237,7 @@ def replay(run, data):
         if "c" in v:
             ctx["c"] = v["c"]
         try:
-            engine(memoryQuota=i["Q"], convertOutputData=False)(i["expr"]).evaluate(context=ctx)
+            statement(i["expr"], i.get("options_route", "copy"), memoryQuota=i["Q"], convertOutputData=False).evaluate(context=ctx)
             raised = False
         except exceptions.MemoryQuotaExceededException:
             raised = True
